@@ -4,7 +4,38 @@ import json
 
 TECH = 'bounded symbolic execution of the real code (CrossHair 0.0.110 + z3 5.1), solver verdict per path, concrete replay'
 
+_FE_NOTE = ('Partial claim: lexing/parsing of malformed TEXT (token-level edits, truncation, stray characters) is outside -- the '
+            'ply master regex on symbolic text is out of reach of the engine; reference resolution, inheritance legality, '
+            'patches, file order are structural and exercised only by the fixed templates. Trusted: the language-rule '
+            'oracles transcribed from docs/lang_ref.rst in harness/fe_*.py (three-valued; silent cases not judged), '
+            'CrossHair/z3, glue G1-G3. Every counterexample is re-rendered as spec TEXT and must end the same way '
+            'through specs_to_ir before it is reported.')
+
 CLAIMED = {
+    'C01': dict(
+        text='Bounded proof by symbolic execution of the real semantic stage (IRGenerator.generate_IR, stone.ir constructors '
+             'and check*/set_* methods) on ASTs parsed from spec templates by the real parser, with ONE symbolic literal slot '
+             'per harness: type arguments of every builtin type, field defaults for 23 field type shapes (literal and tag '
+             'references), example values (scalars, floats, lists, maps, example references), route attribute values '
+             'against a typed stone_cfg.Route schema, doc references composed from a finite name domain, finite-domain name '
+             'clashes at inheritance depth 3: InvalidSpec is raised iff the transcribed language rule says must-reject. Plus '
+             'the indentation rule on the lexer dent kernel (symbolic indentation).',
+        note=_FE_NOTE, ref='4 (C01/C02/C03)'),
+    'C02': dict(
+        text='Bounded proof by symbolic execution, literal-fidelity and ordering clauses: for every accepted symbolic literal '
+             '(type arguments, defaults incl. int->float, example leaves, route attributes with schema defaults for absent '
+             'ones, also on an untouched sibling route) the Api object carries exactly the declared value; Struct.all_fields '
+             'is required-then-optional / parents-first for every optionality assignment of a depth-3 chain; '
+             'ApiNamespace.normalize leaves types, aliases and routes sorted and complete for symbolic names/versions.',
+        note=_FE_NOTE + ' Closure/registration of reachable types and linearisation order are structural and outside.',
+        ref='4 (C01/C02/C03)'),
+    'C03': dict(
+        text='Bounded proof by symbolic execution: for every value of every literal slot listed under C01, every composed doc '
+             'reference, every finite-domain name choice, the semantic stage returns an Api or raises InvalidSpec -- no '
+             'other exception escapes; the regex-free actions that see user text (string-literal action, doc_unwrap, route '
+             'reference parser) never raise on strings <= 4/5 chars; bug-hunting harnesses (realised doc-reference text) can '
+             'refute but not discharge. 11 defects of this kind were found this way and repaired (known_findings.json).',
+        note=_FE_NOTE + ' Message text is checked in concrete replays only (G1).', ref='4 (C01/C02/C03)'),
     'C04': dict(
         text='Bounded proof by symbolic execution: for every type of the shape catalogue, json_compat_obj_encode -> '
              'json_compat_obj_decode -> json_compat_obj_encode of the real runtime is executed on symbolic leaf values '
@@ -52,6 +83,27 @@ CLAIMED = {
         note='Trusted: CrossHair/z3 and its regex engine, glue G1-G3. int->float conversion uses the real-number model '
              '(rounding/overflow outside). bool-as-number and NaN bounds are unspecified and not judged.',
         ref='4 (C08)'),
+    'C10': dict(
+        text='Bounded proof by symbolic execution: (1) every default literal the real compiler accepts for a primitive field '
+             'shape (bounded ints, alias chains, floats IEEE-exact, booleans, strings with lengths and patterns) is accepted '
+             'by the validator that python_types.generate_validator_constructor builds for the same type; (2) every example '
+             'that the compiler computes for the holes template with one symbolic example value decodes strictly as the '
+             'generated class and encodes back to the same document (implicit catch-all example excluded); (3) bug-hunting '
+             'only: defaults are emitted as one line that evaluates back to the literal.',
+        note='Trusted: CrossHair/z3 + regex engine, glue G1-G3; generated classes of catalogue/holes compiled at check time. '
+             'Outside: tag defaults read back from generated classes (concrete fixture gate only), Bytes/Timestamp, '
+             'emission of arbitrary numbers (formatting realises them).',
+        ref='4 (C10)'),
+    'C11': dict(
+        text='Bounded proof by symbolic execution of the lexer dent logic (layout clause only): with symbolic current level, '
+             'number of leading spaces (0..9/17), line tail, comment body and blank-line count, a blank / space-only / '
+             'comment-only next line never produces INDENT/DEDENT nor changes the level; the number and kind of dent tokens '
+             'equals the level change; a full-line comment yields no NEWLINE, a trailing comment exactly one; inside '
+             'parentheses a continuation is accepted iff indented by exactly one level; at end of input exactly `level` '
+             'DEDENTs are produced.',
+        note='Partial claim: the ordering / file-splitting / stdin clauses are structural and outside; tokenisation itself '
+             '(ply master regex) is outside. Unit harnesses on private lexer helpers resolved by name at start-up.',
+        ref='4 (C11)'),
     'C13': dict(
         text='Bounded proof by symbolic execution over the annotated catalogue (Omitted for two caller classes, '
              'RedactedBlot/RedactedHash with and without regex on struct fields, union tags, inherited fields, aliases used '
@@ -108,11 +160,6 @@ NA = {
 }
 
 PENDING = {
-    'C01': 'check under construction in this session (claimed in DESIGN.md section 4)',
-    'C02': 'check under construction in this session (claimed in DESIGN.md section 4)',
-    'C03': 'check under construction in this session (claimed in DESIGN.md section 4)',
-    'C10': 'check under construction in this session (claimed in DESIGN.md section 4)',
-    'C11': 'check under construction in this session (claimed in DESIGN.md section 4)',
 }
 
 
